@@ -102,7 +102,13 @@ func vLcaLevel(x int) int {
 
 var vChoices = []int{4, 5, 7, 9, 6}
 
-func VerifC15_IndexSequence(l0, l1, l2, l3 int) {
+func VerifC15_IndexSequence(l0, l1, l2, l3 int) { vIndexSequence(l0, l1, l2, l3, -1) }
+
+// the same with the taxa of references 1..3 fixed by the instance (txcode = their choices in base 5), which
+// makes four references of unequal lengths affordable
+func VerifC15_IndexSequenceTaxa(l0, l1, l2, l3, txcode int) { vIndexSequence(l0, l1, l2, l3, txcode) }
+
+func vIndexSequence(l0, l1, l2, l3, txcode int) {
 	lens := []int{l0, l1, l2, l3}
 	nref := 4
 	if l3 == 0 {
@@ -122,6 +128,12 @@ func VerifC15_IndexSequence(l0, l1, l2, l3 int) {
 		return // abstract profiles are not replayable: see DESIGN (C15); the check reports them as inconclusive
 	}
 	d[0], ali[0], cw[0], tx[0] = 0, lq, lq-3, 0
+	if txcode >= 0 {
+		for i := 1; i < nref; i++ {
+			tx[i] = txcode % 5
+			txcode /= 5
+		}
+	}
 	taxo := vTaxonomy()
 	taxa := make(obitax.TaxonSet, nref)
 	refs := obiseq.MakeBioSequenceSlice()
